@@ -107,7 +107,10 @@ CHECKS = {
             "dropped with 0..2 (thorough 0..8) uni and 0..2 (0..8) bidi peer streams still inside their preamble; thorough also every "
             "single-bit close code} x role x number of cloned handles. Nine kinds of "
             "calls are pending when the cause is raised (accept_uni, accept_bi, receive_datagram, closed, open_uni / open_bi with stream "
-            "credit exhausted, read without data, write against a full window, stopped) and six more are issued afterwards; each must "
+            "credit exhausted, read without data, write against a full window, stopped; in the 'held' variant of every cause also finish() "
+            "whose FIN cannot be acknowledged, an opening future whose preamble finds no send budget and a write blocked on the connection's "
+            "send budget - the simulated network withholds everything once these are issued and lets a peer-originated cause through alone) "
+            "and six more are issued afterwards; each must "
             "complete within 2 s of virtual time with a result in the cause's allowed set (the exact cause, or LocallyClosed where the library "
             "shut the transport down itself; NotConnected for stream calls), no panic anywhere; after 'all handles dropped' the peer must see "
             "the connection closed well before its idle timeout. Part 'utils' (model checking of driver::utils through hook H3): every "
